@@ -868,6 +868,85 @@ pub fn run_eloop(c: &Case) -> Obs {
     Obs::ok(format!("{}:{obs}", reused.len()), !reused.is_empty()).with_verdict(verdict)
 }
 
+// kind lloop (NV.Vcf.LazyLoop.lazy_call_list): arbitrary bytes read with read_record into ONE
+// reused lazy Record until Ok(0), GOING ON after every Err (a failed call leaves the reader behind
+// the field that failed, or behind the line for "unexpected EOL" / a samples line that is not
+// UTF-8); one result per call, every accessor forced.  Oracle (the proved statement): on an ASCII
+// text whose lines all end in LF there is one call per line and every Ok call consumes its line.
+pub fn run_lloop(c: &Case) -> Obs {
+    let header = match header_of(c) {
+        Ok(h) => h,
+        Err(e) => return Obs::fail("-", "lloop-header-unparsable", format!("{e}")),
+    };
+    let text = unhex(&c.args[4]);
+    let cap = text.len() + 2;
+    let mut reader = vcf::io::Reader::new(&text[..]);
+    let mut rec = vcf::Record::default();
+    let mut out: Vec<String> = vec![];
+    let mut ns: Vec<Option<usize>> = vec![];
+    let mut eof = false;
+    for _ in 0..cap {
+        let r = g(|| reader.read_record(&mut rec).map_err(|_| ()));
+        match r {
+            R::Panic => return Obs::fail("Panic", lazy_panic_tag(&text), &c.args[4]),
+            R::Err => { out.push("Err".into()); ns.push(None); }
+            R::Ok(0) => { eof = true; break; }
+            R::Ok(n) => {
+                let texts = g(|| Ok(accessor_texts(&rec)));
+                let view = g(|| canon_lazy(&header, &rec).map_err(|_| ()));
+                let t = match texts { R::Ok(t) => t, _ => return Obs::fail("Panic", lazy_panic_tag(&text), &c.args[4]) };
+                let v = match view {
+                    R::Ok(cn) => rec_str(&cn),
+                    R::Err => "Err".into(),
+                    R::Panic => return Obs::fail("Panic", lazy_panic_tag(&text), &c.args[4]),
+                };
+                out.push(format!("{n}|{t}|{v}"));
+                ns.push(Some(n));
+            }
+        }
+    }
+    let obs = format!("{}:{}", out.len(), out.join("^"));
+    if !eof {
+        return Obs::fail(obs, "lloop-reader-does-not-reach-eof", &c.args[4]);
+    }
+    let mut verdict = Ok(());
+    let lines: Vec<&[u8]> = text.split_inclusive(|&b| b == b'\n').collect();
+    if lines.len() != ns.len() {
+        // a call started inside a line: the call before it failed on a field that is not UTF-8
+        // and left the rest of its line unread (the eager reader consumes the line)
+        verdict = Err(("lazy-read-record-resumes-mid-line-after-invalid-utf8-field".to_string(), format!("{} :: {obs}", &c.args[4])));
+    }
+    if text.is_ascii() && (text.is_empty() || text.ends_with(b"\n")) {
+        let same = lines.len() == ns.len() && lines.iter().zip(&ns).all(|(l, n)| n.map_or(true, |n| n == l.len()));
+        if !same {
+            verdict = Err(("lazy-loop-frames-ascii-lf-text-unlike-its-lines".to_string(), format!("{} :: {obs}", &c.args[4])));
+        }
+    }
+    Obs::ok(obs, !out.is_empty()).with_verdict(verdict)
+}
+
+const LLOOP_FIXED: &[&[u8]] = &[
+    b"\xff\tb\n",
+    b"sq0\t5\t\xff\tA\t.\t.\t.\t.\nsq0\t5\t.\tA\t.\t.\t.\t.\n",
+    b"sq0\t\xc3\t.\tA\t.\t.\t.\t.\tGT\t0/1\tx\ty\tz\tw\tv\n",
+    b"sq0\t5\t.\tA\t.\t.\t.\t.\tGT\t\xff\nsq0\t5\t.\tA\t.\t.\t.\t.\n",
+    b"sq0\t5\t.\tA\t.\t.\t.\t\xff\nsq0\t5\t.\tA\t.\t.\t.\t.\n",
+    b"sq0\t5\nsq0\t5\t.\tA\t.\t.\t.\t.\n",
+    b"sq0\t5\r\n\r\nsq0\t5\t.\tA\t.\t.\t.\t.\r\n",
+    b"\n\n\n",
+    b"sq0\t5\t.\tA\t.\t.\t.\t.\nsq0\t\xff",
+    b"\xff",
+];
+
+pub fn gen_lloop(rng: &mut Rng, w: &mut CaseWriter, n_mut: usize) {
+    let infos = "I0/1/I,END/1/I,SVLEN/./I";
+    let fmts = "GT/1/S,F0/1/I,LEN/1/I";
+    for t in LLOOP_FIXED {
+        w.push("lloop", vec!["4.3".into(), infos.into(), fmts.into(), "2".into(), hex(t), qual_ftab_all(t)]);
+    }
+    gen_bytes_kind(rng, w, n_mut, "lloop")
+}
+
 pub fn qual_ftab_all(text: &[u8]) -> String {
     let mut v: Vec<String> = vec![];
     for raw in text.split(|&b| b == b'\n') {
